@@ -148,4 +148,45 @@ $a = [3, 1, 2]; usort($a, "cmp"); echo json_encode($a), "|", array_reduce([1, 2,
 function pred($x) { return $x < 3; } function cmp($p, $q) { return $q <=> $p; } function acc($c, $x) { return $c * $x; }
 echo implode(",", array_map("helper", [7, 8])), "|", call_user_func("helper", 9), "|", json_encode(array_filter([1, 2, 3], "pred")), "|";
 $a = [3, 1, 2]; usort($a, "cmp"); echo json_encode($a), "|", array_reduce([1, 2, 3], "acc", 1), "|", is_callable("helper") ? "c" : "n", function_exists("pred") ? "f" : "n", "\n";`},
+	// ---- end states x diagnostics (clause iii through the CLI route) ------------------------------
+	// Programs that END IN A DIAGNOSTIC before printing anything themselves (what the diagnostics
+	// printer adds - blank line, prefix, trace - depends on process-level state such as "user output
+	// already emitted"), one per diagnostic kind the runtime has, and the same after own output:
+	{"diag-abstract-new", `abstract class Shape { abstract function area(); } $s = new Shape();`},
+	{"diag-abstract-new-after-output", `echo "before\n"; abstract class Shape { abstract function area(); } $s = new Shape();`},
+	{"diag-abstract-new-in-function", `abstract class Shape {} function mk() { return new Shape(); } function outer() { return mk(); } outer();`},
+	{"diag-parent-abstract-call", `abstract class Pa { abstract function run(); } class Ch extends Pa { function run() { return parent::run(); } } $c = new Ch(); $c->run();`},
+	{"diag-missing-abstract", `abstract class Model { abstract function table(); } class User extends Model { } $u = new User(); echo "unreached\n";`},
+	{"diag-final-abstract", `abstract class F { final abstract function x(); }`},
+	{"diag-parse-error", `class { }`},
+	{"diag-parse-error-after-code", `echo "never-printed\n"; foreach ($a as ) { }`},
+	{"diag-uncaught-silent", `throw new RuntimeException("unhandled-silent");`},
+	{"diag-uncaught-custom-in-function", `class MyEx extends Exception {} function thrower() { throw new MyEx("custom", 7); } thrower();`},
+	{"diag-undefined-function-silent", `undefined_fn_c20_silent(1);`},
+	{"diag-type-error-silent", `function typed(int $x) { return $x; } typed("abc");`},
+	{"diag-trigger-error-unhandled", `trigger_error("warn-c20", E_USER_WARNING); echo "unreached\n";`},
+	{"diag-deprecated-callable", `class Dep { static function sm() { return "sm"; } } $o = new Dep(); $r = call_user_func([$o, "Dep::sm"]); echo $r, "\n";`},
+	{"diag-deprecated-callable-after-output", `class Dep { static function sm() { return "sm"; } } $o = new Dep(); echo "first\n"; $r = call_user_func([$o, "Dep::sm"]); echo $r, "\n";`},
+	{"diag-magic-visibility-warning", `class Mg { private function __get($n) { return 1; } } echo "after-warning\n";`},
+	{"diag-null-offset-deprecated", `$a = ["" => 1]; $k = null; echo $a[$k], "\n";`},
+	{"diag-null-key-exists-deprecated", `$a = ["" => 1]; echo array_key_exists(null, $a) ? "y" : "n", "\n";`},
+	{"diag-raw-post-warning", `$r = $HTTP_RAW_POST_DATA; echo "done\n";`},
+	{"diag-overloaded-notice", `class Ov implements ArrayAccess { function offsetGet($o) { return [1]; } function offsetSet($o, $v) {} function offsetExists($o) { return true; } function offsetUnset($o) {} } $o = new Ov(); $o["a"][] = 2; echo "done\n";`},
+	{"diag-exit-code-silent", `exit(4);`},
+	{"diag-exit-message", `exit("bye-msg");`},
+	{"diag-handler-silent", `set_exception_handler(function($e) { echo "handled:", get_class($e), ":", $e->getMessage(), "\n"; }); throw new LogicException("to-handler");`},
+	{"diag-handler-rethrows", `set_exception_handler(function($e) { throw new RuntimeException("from-handler"); }); throw new LogicException("first");`},
+	{"diag-shutdown-throws", `register_shutdown_function(function() { throw new RuntimeException("in-shutdown"); });`},
+	{"diag-shutdown-after-fatal", `register_shutdown_function(function() { echo "shutdown-ran\n"; }); abstract class Sh {} new Sh();`},
+	// End states of an earlier program that the pool did not have yet: no output at all, output only
+	// through var_dump (which writes to stdout directly), buffers left open in every shape, and
+	// buffers left open by a program that then dies.
+	{"end-silent", `$x = 1 + 1; $y = [$x];`},
+	{"end-vardump-only", `var_dump(42);`},
+	{"end-ob-nested-open", `ob_start(); echo "one"; ob_start(); echo "two";`},
+	{"end-ob-callback-open", `ob_start(function($b) { return strtoupper($b); }); echo "shout";`},
+	{"end-ob-open-then-uncaught", `ob_start(); echo "buffered"; throw new RuntimeException("with-open-buffer");`},
+	{"end-ob-open-then-fatal", `ob_start(); echo "buffered"; abstract class Ob {} new Ob();`},
+	{"end-ob-open-then-exit", `ob_start(); echo "buffered-exit"; exit(5);`},
+	{"end-error-handler-left", `set_error_handler(function($no, $str) { echo "EH:", $str, "\n"; return true; }); echo "installed\n";`},
 }
